@@ -2099,6 +2099,8 @@ pub open spec fn vis_true(V: VIS, k: usize) -> bool { V.contains_key(k) && V[k] 
         final(component)@.contains(v), vis_true(final(visited)@, v),
         forall|k: usize| #[trigger] vis_true(final(visited)@, k) ==> vis_true(old(visited)@, k) || final(component)@.contains(k),
         forall|k: usize| vis_true(old(visited)@, k) ==> #[trigger] vis_true(final(visited)@, k),
+        // closure: every neighbour of a newly visited clique is visited
+        forall|k: usize, b: usize| vis_true(final(visited)@, k) && !vis_true(old(visited)@, k) && #[trigger] hedge(H@, k, b) ==> vis_true(final(visited)@, b),
         forall|x: usize| old(component)@.contains(x) ==> #[trigger] final(component)@.contains(x),
         forall|x: usize| #[trigger] final(component)@.contains(x) ==> old(component)@.contains(x) || H@.contains_key(x),
 //@pre
@@ -2122,6 +2124,8 @@ it
             component@.contains(v), vis_true(visited@, v),
             forall|k: usize| #[trigger] vis_true(visited@, k) ==> vis_true(V0, k) || component@.contains(k),
             forall|k: usize| vis_true(V0, k) ==> #[trigger] vis_true(visited@, k),
+            forall|i: int| 0 <= i < it.index@ ==> vis_true(visited@, #[trigger] nbv[i]),
+            forall|k: usize, b: usize| k != v && vis_true(visited@, k) && !vis_true(V0, k) && #[trigger] hedge(H@, k, b) ==> vis_true(visited@, b),
             forall|x: usize| C0.contains(x) ==> #[trigger] component@.contains(x),
             forall|x: usize| #[trigger] component@.contains(x) ==> C0.contains(x) || H@.contains_key(x),
 //@body_start 1
@@ -2135,7 +2139,17 @@ it
             assert forall|x: usize| #[trigger] component@.contains(x) implies C0.contains(x) || H@.contains_key(x) by { if Cb.contains(x) { } }
             assert(vis_true(Vb, v));
             assert forall|k: usize| vis_true(V0, k) implies #[trigger] vis_true(visited@, k) by { assert(vis_true(Vb, k)); }
+            assert forall|i: int| 0 <= i < it.index@ + 1 implies vis_true(visited@, #[trigger] nbv[i]) by { if i < it.index@ { assert(vis_true(Vb, nbv[i])); } }
+            assert forall|k: usize, b: usize| k != v && vis_true(visited@, k) && !vis_true(V0, k) && #[trigger] hedge(H@, k, b) implies vis_true(visited@, b) by {
+                if vis_true(Vb, k) { assert(vis_true(Vb, b)); }
+            }
         }
+//@post
+    proof {
+        assert forall|k: usize, b: usize| vis_true(visited@, k) && !vis_true(V0, k) && #[trigger] hedge(H@, k, b) implies vis_true(visited@, b) by {
+            if k == v { let i = choose|i: int| 0 <= i < H@[v]@.len() && H@[v]@[i] == b; assert(vis_true(visited@, H@[v]@[i])); }
+        }
+    }
 //@end
 
 // Find connected components in the undirected separator graph `H`
